@@ -97,9 +97,21 @@ let read_double (ts : string list) : (float * string list) option =
       if not (is_clean_float t) then raise Unclean else
       let x = float_of_string t in
       if Float.abs x = Float.infinity then None else Some (x, r)
+(* strtof: the model has only strtod; rounding the double to single equals strtof unless the
+   double sits exactly on the midpoint of two adjacent singles (double rounding) -- then the
+   oracle refuses (NA).  Never the case for text printed from a single with 21 digits. *)
 let read_single ts = match read_double ts with
-  | Some (x, r) -> let y = Int32.float_of_bits (Int32.bits_of_float x) in
-      if Float.abs y = Float.infinity then None else Some (y, r)
+  | Some (x, r) ->
+      let b = Int32.bits_of_float x in
+      let y = Int32.float_of_bits b in
+      if Float.abs y = Float.infinity then None else begin
+        let nb d = Int32.float_of_bits (Int32.add b (Int32.of_int d)) in
+        let mid a c = (a +. c) /. 2.0 in
+        let mag = Int32.logand b 0x7fffffffl in
+        let up = nb 1 and dn = if mag = 0l then Float.neg (Int32.float_of_bits 1l) else nb (-1) in
+        let up = if mag = 0l then Int32.float_of_bits 1l else up in
+        if x <> y && (x = mid y up || x = mid y dn) then raise Unclean;
+        Some (y, r) end
   | None -> None
 let print_e (x : float) : string = Printf.sprintf "%.20e" x
 
